@@ -3,17 +3,17 @@ package props
 import "testing"
 
 func TestC01(t *testing.T) {
-	drive(t, &PropDef{ID: "C01", Gen: genAdv("C01"), Decode: decodeInto[AdvScenario], Run: runAdv, Checks: 60})
+	drive(t, &PropDef{ID: "C01", Gen: genAdv("C01"), Decode: decodeInto[AdvScenario], Run: runAdv, Checks: 60, CrashCapture: true})
 }
 
 func TestC02(t *testing.T) {
-	drive(t, &PropDef{ID: "C02", Gen: genAdv("C02"), Decode: decodeInto[AdvScenario], Run: runAdv, Checks: 40})
+	drive(t, &PropDef{ID: "C02", Gen: genAdv("C02"), Decode: decodeInto[AdvScenario], Run: runAdv, Checks: 40, CrashCapture: true})
 }
 
 func TestC03(t *testing.T) {
-	drive(t, &PropDef{ID: "C03", Gen: genAdv("C03"), Decode: decodeInto[AdvScenario], Run: runAdv, Checks: 60})
+	drive(t, &PropDef{ID: "C03", Gen: genAdv("C03"), Decode: decodeInto[AdvScenario], Run: runAdv, Checks: 60, CrashCapture: true})
 }
 
 func TestC13(t *testing.T) {
-	drive(t, &PropDef{ID: "C13", Gen: genAdv("C13"), Decode: decodeInto[AdvScenario], Run: runAdv, Checks: 40})
+	drive(t, &PropDef{ID: "C13", Gen: genAdv("C13"), Decode: decodeInto[AdvScenario], Run: runAdv, Checks: 40, CrashCapture: true})
 }
